@@ -235,8 +235,14 @@ def check(run, prog, tier):
     for p in e0.paths(ge, recv=SUBS):
         run.paths += 1
         for e in p.events:
-            if e.kind == "call" and e.attrname == "append" and e.recv is not None and e.recv[0] == "item":
-                key, val = e.recv[2], e.args[0] if e.args else None
+            grp = e.recv if e.kind == "call" and e.attrname == "append" and e.recv is not None else None
+            key = None
+            if grp is not None and grp[0] == "item":
+                key = grp[2]  # groups[endpoint].append(..)
+            elif grp is not None and grp[0] == "call" and grp[1][0] == "attr" and grp[1][2] == "setdefault" and grp[2]:
+                key = grp[2][0]  # groups.setdefault(endpoint, []).append(..)
+            if key is not None:
+                val = e.args[0] if e.args else None
                 # for eventgroup, endpoint in self.subscribeentries: groups[endpoint].append(eventgroup)
                 okg = key[0] == "item" and key[2] == const(1) and val is not None and val[0] == "item" and val[2] == const(0) and key[1] == val[1] \
                     and key[1][0] == "elem" and key[1][1] == ("attr", me, "subscribeentries")
